@@ -332,7 +332,7 @@ func processStats(stats *SegStats, inNumType SS_IntUintFloatTypes, intVal int64,
 				}
 			}
 		} else {
-			stats.NumStats.Sum.IntgrVal = stats.NumStats.Sum.IntgrVal + inIntgrVal
+			stats.NumStats.Sum.AddToIntSum(inIntgrVal)
 
 			if hasValuesFunc {
 				stats.StringStats.StrSet[strconv.FormatInt(inIntgrVal, 10)] = struct{}{}
